@@ -80,11 +80,36 @@ struct vf_in {
 VF_DECLARE_INPUT(struct vf_in, IN)
 #include "vf_input.inc"
 
-/* STUB: EA-inode and inode I/O entry points are not reachable with in_inode = 0 and ea_ino = 0: fail */
+#ifndef EAMASK
+#define EAMASK 0	/* bit i set: pre-state attribute i keeps its value in an EA inode (compile-time) */
+#endif
+/* STUB: ext2fs_read_inode_full()/ext2fs_write_inode_full() serve xattr_inode_dec_ref(): the EA inode read has reference count 2 (so dropping one reference does not free it: freeing needs punch/bitmaps, outside), the write is recorded (inode number, new reference count) */
+static int stub_ino_reads, stub_ino_writes;
+static ext2_ino_t stub_ino_written;
+static __u64 stub_ref_written;
+errcode_t ext2fs_read_inode_full(ext2_filsys fs, ext2_ino_t ino, struct ext2_inode *inode, int sz)
+{
+	static const struct ext2_inode_large zero;
+	struct ext2_inode_large *l = (struct ext2_inode_large *) inode;
+	(void) fs; (void) ino; (void) sz;
+	stub_ino_reads++;
+	*l = zero;
+	l->i_flags = EXT4_EA_INODE_FL;
+	l->i_links_count = 1;
+	ext2fs_set_ea_inode_ref((struct ext2_inode *) l, 2);
+	return 0;
+}
+errcode_t ext2fs_write_inode_full(ext2_filsys fs, ext2_ino_t ino, struct ext2_inode *inode, int sz)
+{
+	(void) fs; (void) sz;
+	stub_ino_writes++;
+	stub_ino_written = ino;
+	stub_ref_written = ext2fs_get_ea_inode_ref(inode);
+	return 0;
+}
+/* STUB: ext2fs_read_inode()/ext2fs_new_inode() (creating an EA inode) not reachable with in_inode = 0: fail */
 errcode_t ext2fs_read_inode(ext2_filsys fs, ext2_ino_t ino, struct ext2_inode *inode)
 { (void) fs; (void) ino; (void) inode; return EXT2_ET_BAD_INODE_NUM; }
-errcode_t ext2fs_read_inode_full(ext2_filsys fs, ext2_ino_t ino, struct ext2_inode *inode, int sz)
-{ (void) fs; (void) ino; (void) inode; (void) sz; return EXT2_ET_BAD_INODE_NUM; }
 errcode_t ext2fs_new_inode(ext2_filsys fs, ext2_ino_t dir, int mode, ext2fs_inode_bitmap map, ext2_ino_t *ret)
 { (void) fs; (void) dir; (void) mode; (void) map; (void) ret; return EXT2_ET_INODE_ALLOC_FAIL; }
 
@@ -113,6 +138,7 @@ static void vf_decode(struct ext2_xattr_handle *h)
 			continue;
 		P[j].idx = (unsigned char) x->name_index;
 		P[j].vlen = (unsigned char) x->value_len;
+		P[j].ea_ino = x->ea_ino;
 		P[j].nlen = 0;
 		for (b = 0; b < NM; b++) {
 			if (b == P[j].nlen && x->short_name[b] != 0) {
@@ -129,7 +155,7 @@ static void vf_decode(struct ext2_xattr_handle *h)
 static int ref_same_val(const struct vf_attr *a, const struct vf_attr *b)
 {
 	int i;
-	if (a->vlen != b->vlen)
+	if (a->vlen != b->vlen || a->ea_ino != b->ea_ino)
 		return 0;
 	for (i = 0; i < VM; i++)
 		if (i < a->vlen && a->val[i] != b->val[i])
@@ -148,6 +174,13 @@ int main(void)
 	/* BOUND: ibody_count IBC in 0..N and old_idx OLD in -1..N-1 are compile-time, one query per pair */
 	ibc = IBC;
 	old = OLD;
+	IN.nw.ea_ino = 0;	/* the new value is stored in-line (in_inode = 0) */
+	for (i = 0; i < N; i++) {
+		if ((EAMASK >> i) & 1)
+			ASSUME(IN.a[i].ea_ino != 0);	/* value of attribute i lives in an EA inode: it occupies only entry + name in its part */
+		else
+			IN.a[i].ea_ino = 0;
+	}
 	/* BOUND: capacities up to CAPMAX bytes per part */
 	ASSUME(IN.icap <= CAPMAX && IN.bcap <= CAPMAX);
 	ASSUME(ref_attr_ok(&IN.nw));
@@ -190,7 +223,7 @@ int main(void)
 		x->name_index = IN.a[i].idx;
 		x->value = vv;
 		x->value_len = IN.a[i].vlen;
-		x->ea_ino = 0;
+		x->ea_ino = IN.a[i].ea_ino;
 	}
 	h->count = N;
 	h->ibody_count = ibc;
@@ -254,6 +287,13 @@ int main(void)
 			if (j >= ibc2 && j + 1 < cnt2)
 				PROP(ref_key_cmp(&P[j], &P[j + 1]) < 0, "block part stays sorted (index, name length, name)");
 	}
+	/* the reference held on the OLD value's EA inode is dropped exactly when that value is replaced (no leak, no double drop) */
+	if (rc == 0 && old >= 0 && ((EAMASK >> (old >= 0 ? old : 0)) & 1)) {
+		PROP(stub_ino_reads == 1 && stub_ino_writes == 1, "replacing an EA-inode value drops one reference, once");
+		PROP(stub_ino_written == IN.a[old >= 0 ? old : 0].ea_ino && stub_ref_written == 1,
+		     "the reference is dropped on the old value's EA inode (2 -> 1)");
+	} else
+		PROP(stub_ino_reads == 0 && stub_ino_writes == 0, "no EA inode is touched otherwise");
 	PROP(!stub_memmove_bad, "memmove only ever shifts whole elements inside the attribute array");
 	VF_END();
 	return 0;
